@@ -27,14 +27,20 @@ ASSUME = [
 M32 = 1 << 32
 
 # inputs that exposed defects on the pinned tree: always part of leg G (regression corpus)
+VGA43 = {"cons": "vga", "w": 4, "h": 3, "pitch": 4, "bpp": 0, "ci": [0] * 6, "gw": 1, "gh": 1, "offY": 0}
+FB16 = {"cons": "fb", "w": 19, "h": 6, "pitch": 41, "bpp": 16, "ci": [11, 5, 5, 6, 0, 5], "gw": 9, "gh": 2, "offY": 1}
 PINNED = [
-    {"id": 901, "cons": "vga", "w": 4, "h": 3, "pitch": 4, "bpp": 0, "ci": [0] * 6, "gw": 1, "gh": 1, "offY": 0,
-     "calls": [[1, 1, 2, 1, M32 - 1, 7, 1], [1, 2, 1, M32 - 1, 1, 7, 1], [0, 65, 7, 15, 2, 2], [1, 4, 3, M32 - 2, M32 - 2, 3, 2]]},
-    {"id": 902, "cons": "fb", "w": 19, "h": 6, "pitch": 41, "bpp": 16, "ci": [11, 5, 5, 6, 0, 5], "gw": 9, "gh": 2, "offY": 1,
-     "calls": [[2, 0, 1], [2, 1, 1], [1, 2, 1, M32 - 1, 1, 0, 9], [1, 2, 2, 0, M32 - 1, 0, 9], [1, 1, 2, 1, M32 - 1, 0, 9]]},
-    {"id": 903, "cons": "fb", "w": 17, "h": 5, "pitch": 70, "bpp": 32, "ci": [24, 8, 16, 8, 8, 8], "gw": 8, "gh": 2, "offY": 0,
-     "calls": [[0, 1, 200, 7, 1, 1], [1, 1, 1, 2, 2, 0, 9], [2, 0, 1]]},
+    dict(VGA43, id=901, calls=[[1, 1, 2, 1, M32 - 1, 7, 1]]),                 # y+height-1 wraps: index out of range
+    dict(VGA43, id=902, calls=[[1, 2, 1, M32 - 1, 1, 7, 1]]),                 # x+width-1 wraps: nothing filled
+    dict(VGA43, id=903, calls=[[0, 65, 7, 15, 2, 2]]),                        # background 15 stored as 0
+    dict(VGA43, id=904, calls=[[1, 4, 3, M32 - 2, M32 - 2, 3, 2], [1, 0, 0, M32 - 1, M32 - 1, 3, 2]]),
+    dict(FB16, id=905, calls=[[2, 0, 1], [2, 1, 1]]),                         # scroll rewrites row padding
+    dict(FB16, id=906, calls=[[1, 2, 2, 0, M32 - 1, 0, 9]]),                  # ~2^32 iterations of an empty row loop
+    dict(FB16, id=907, calls=[[1, 2, 1, M32 - 1, 1, 0, 9], [1, 1, 2, 1, M32 - 1, 0, 9]]),
+    {"id": 908, "cons": "fb", "w": 17, "h": 5, "pitch": 70, "bpp": 32, "ci": [24, 8, 16, 8, 8, 8], "gw": 8, "gh": 2, "offY": 0,
+     "calls": [[0, 1, 200, 7, 1, 1], [1, 1, 1, 2, 2, 0, 9], [2, 0, 1]]},      # colour component in byte 3 of the pixel
 ]
+PINNED_MIN_ID = 900
 
 
 def word(v):
@@ -109,6 +115,20 @@ def case_to_replay(events):
             "reinit": 0, "chk": 0, "calls": calls}
 
 
+def extract_pinned(src, dst):
+    """Copy the cases of the pinned reproducers (init id >= PINNED_MIN_ID) out of the G trace; returns their number."""
+    n, keep = 0, False
+    with open(src) as f, open(dst, "w") as o:
+        for line in f:
+            e = json.loads(line)
+            if e["k"] == "init":
+                keep = e["id"] >= PINNED_MIN_ID
+                n += keep
+            if keep:
+                o.write(line)
+    return n
+
+
 def brief(e):
     e = dict(e)
     for k in ("fd", "pal", "rows"):
@@ -153,7 +173,7 @@ def validate(ctx, name, path, open_devs, findings):
     """Strict pass first.  A mismatch that is exactly an open named deviation (diagnosis tagged Dev_<name>, name recorded in
     known_findings.json) is reported as KNOWN-FINDING and the trace is validated again with that deviation accepted, until
     no further open deviation shows up.  Returns the genuine mismatches of the last pass."""
-    par = 6 if ctx.quick else 16
+    par = getattr(ctx, "c19_par", None) or (3 if ctx.quick else 16)
     enabled = set()
     while True:
         env = {v: ("1" if k in enabled else "0") for k, v in DEVS.items()}
@@ -175,15 +195,15 @@ def validate(ctx, name, path, open_devs, findings):
         enabled |= new
 
 
-def report(ctx, name, bad):
-    seen = set()
+def report(ctx, name, bad, seen):
+    """One VIOLATION (with replay file) per kind of mismatch and console type; at most 10 per run."""
     for m in bad:
         why = m["mismatch"][2]
-        key = json.dumps(why[:3] if why[0] == "call did not return normally" else why[:2])
-        if key in seen or len(ctx.violations) >= 6:
+        ev = m["case_events"][:m["line_in_case"]]
+        key = json.dumps([ev[0].get("cons"), why[:3] if why[0] == "call did not return normally" else why[:1]])
+        if key in seen or len(ctx.violations) >= 10:
             continue
         seen.add(key)
-        ev = m["case_events"][:m["line_in_case"]]
         rep = case_to_replay(ev)
         ctx.violation({"leg": name, "mismatch": m["mismatch"], "geometry": brief(ev[0]), "event": brief(ev[-1])}, rep)
 
@@ -225,14 +245,24 @@ def run(ctx):
     ctx.cov["legs"]["harness"] = {"G_calls": n_g, "T_cases": ncases, "calls_cut_off_by_cpu_watchdog": hangs_g + hangs_t}
 
     # ---- leg V
-    total_bad = 0
+    total_bad, seen = 0, set()
     for name, path, trunc in (("G-replay", tr_g, trunc_g), ("T-random", tr_t, trunc_t)):
         bad = validate(ctx, name, path, open_devs, findings)
-        report(ctx, name, bad)
+        report(ctx, name, bad, seen)
         total_bad += len(bad)
         account(ctx, name, path)
         if trunc and not bad:
             raise vlib.Broken("harness stopped after calls that did not return but the monitor reported nothing (%s)" % name)
+    if total_bad:
+        # a chunk of cases stops at its first mismatch; on a defective tree judge every pinned reproducer on its own so that
+        # each documented defect is reported with its replay file
+        pin = os.path.join(ctx.work, "trace_pinned.ndjson")
+        n_pin = extract_pinned(tr_g, pin)
+        if n_pin:
+            par_save, ctx.c19_par = getattr(ctx, "c19_par", None), n_pin
+            bad = validate(ctx, "G-pinned", pin, open_devs, findings)
+            ctx.c19_par = par_save
+            report(ctx, "G-pinned", bad, seen)
     ctx.cov["exhaustive"] = (not trunc_g) and total_bad == 0
     ctx.cov["explanation"] = ("exhaustive = every geometry and every Write/Fill/Scroll argument combination of this tier's TLC scope "
                               "(%d geometries, %d calls) was replayed on the real drivers and accepted by the monitor; the scope of the quick tier "
@@ -249,7 +279,7 @@ def replay(ctx, path):
     tr = os.path.join(ctx.work, "trace_replay.ndjson")
     run_harness(ctx, {"C19_MODE": "cases", "C19_CASES": cf, "TRACE_OUT": tr}, "replay")
     bad = validate(ctx, "replay", tr, set(findings), findings)
-    report(ctx, "replay", bad)
+    report(ctx, "replay", bad, set())
     ctx.cov["states"] = max(ctx.cov["states"], 1)
     ctx.cov["transitions"] = max(ctx.cov["transitions"], 1)
     return None
